@@ -5,6 +5,7 @@ mod core;
 mod event;
 mod mutex;
 mod semaphore;
+mod mpmc;
 
 use crate::core::*;
 use std::io::{BufRead, Write};
@@ -24,6 +25,12 @@ fn make(prim: &str, flavour: &str, cfg: &[u64]) -> Option<Box<dyn Exec>> {
         ("semaphore", "local") => Box::new(semaphore::SemExec::<Local>::new(cfg)),
         ("semaphore", "sync") => Box::new(semaphore::SemExec::<Sync>::new(cfg)),
         ("semaphore", "shared") => Box::new(semaphore::SharedSemExec::<Sync>::new(cfg)),
+        ("mpmc", "local") => return mpmc::make_array::<Local>(cfg),
+        ("mpmc", "sync") => return mpmc::make_array::<Sync>(cfg),
+        ("mpmc", "fixed") => Box::new(mpmc::ChanExec::<Local, mpmc::Fixed>::new(cfg)),
+        ("mpmc", "growing") => Box::new(mpmc::ChanExec::<Sync, mpmc::Growing>::new(cfg)),
+        ("mpmc", "shared") => Box::new(mpmc::SharedChanExec::<Sync, mpmc::Fixed>::new(cfg)),
+        ("mpmc", "shared-growing") => Box::new(mpmc::SharedChanExec::<Sync, mpmc::Growing>::new(cfg)),
         _ => return None,
     })
 }
